@@ -165,8 +165,29 @@ def readU16 (b : Bytes) (p : Nat) : Option Nat :=
   | _, _ => none
 
 /-- `Queries::read(decoder, header.counts.queries)` with the decoder just after the header:
-QDCOUNT must be 1 (RFC 9619), then `Name::read`, two `u16`. -/
+QDCOUNT must be 1 (RFC 9619), then `Name::read`, two `u16`.  `original` is the slice consumed —
+unless the name was compressed (the slice is not `plain_len + 4` long; a pointer at offset 12 can
+only lead into the header): then it is rebuilt as the plain wire form of the decoded name (letter
+case as received) followed by the last four octets of the slice (fix cb5609e). -/
 def readQueries (buf : Bytes) (qd : Nat) : Outcome Question :=
+  if qd ≠ 1 then .err
+  else match Name.readName buf 12 with
+    | .ok (n, p) =>
+      match readU16 buf p, readU16 buf (p + 2) with
+      | some t, some c =>
+        let original := (buf.drop 12).take (p + 4 - 12)
+        let raw :=
+          if original.length ≠ n.encodedLen + 4 then
+            Name.wire n ++ original.drop (original.length - 4)
+          else original
+        .ok { name := n, qtype := t, qclass := c, raw := raw }
+      | _, _ => .err
+    | .err => .err
+    | .panic s => .panic s
+
+/-- `Queries::read` as it was before fix cb5609e: `original` always the slice consumed.  Kept for
+the regression example `echo_counterexample_prefix` (finding C11.CompressedQuestionEcho). -/
+def readQueriesPreFix (buf : Bytes) (qd : Nat) : Outcome Question :=
   if qd ≠ 1 then .err
   else match Name.readName buf 12 with
     | .ok (n, p) =>
@@ -191,10 +212,13 @@ inductive ZType where
   deriving DecidableEq, Repr, Inhabited
 
 /-- the `Result<AuthLookup, LookupError>` inside a `LookupControlFlow`, as far as the response
-header depends on it: `Ok(_)`, `Err(LookupError::ResponseCode(rc))`, or `zone` = decided by the
-content of a real in-memory zone (not modelled here). -/
+header depends on it: `Ok(_)` (a plain answer or a referral), `Err(LookupError::ResponseCode(rc))`,
+or `zone` = decided by the content of a real in-memory zone (not modelled here). -/
 inductive LRes where
   | ok
+  /-- `Ok(records)` whose first record is the NS RRset of a delegation point (owner ≠ origin):
+  a referral (fix af8bb96) -/
+  | referral
   | err (rc : Nat)
   | zone
   deriving DecidableEq, Repr, Inhabited
@@ -314,7 +338,7 @@ def builtRcode (zt : ZType) (rd : Bool) (r : LRes) : Option Nat :=
   match zt with
   | .primary | .secondary =>
     match r with
-    | .ok => some RC_NOERROR
+    | .ok | .referral => some RC_NOERROR
     | .err rc =>
       if rc = RC_REFUSED ∨ rc = RC_NOTAUTH then some rc
       else if rc = RC_NXDOMAIN then some RC_NXDOMAIN
@@ -323,15 +347,17 @@ def builtRcode (zt : ZType) (rd : Bool) (r : LRes) : Option Nat :=
   | .external =>
     if !rd then some RC_REFUSED
     else match r with
-      | .ok => some RC_NOERROR
+      | .ok | .referral => some RC_NOERROR
       | .err rc => if rc = RC_NXDOMAIN then some RC_NXDOMAIN else some RC_SERVFAIL
       | .zone => none
 
-/-- the response built from a final lookup result by the handler that ran `search` -/
+/-- the response built from a final lookup result by the handler that ran `search`;
+authoritative zones set AA unless the result is a referral (fix af8bb96) -/
 def builtReply (h : Header) (hasEdns : Bool) (z : Zone) (hd : Handler) (r : LRes)
     (calls : List Call) : Reply :=
   { qr := true, rcode := builtRcode hd.ztype h.rd r, id := h.id, opcode := h.opcode, rd := h.rd, cd := h.cd,
-    aa := hd.ztype != .external, ra := hd.ztype == .external, echo := true, opt := hasEdns,
+    aa := hd.ztype != .external && r != .referral, ra := hd.ztype == .external, echo := true,
+    opt := hasEdns,
     via := some z.idx, calls := calls }
 
 /-- the `consult` loop: every handler but the one at `self` is consulted, in order, whatever
@@ -370,7 +396,7 @@ def runXfer (h : Header) (hasEdns : Bool) (z : Zone) : List (Nat × Handler) →
     | none => runXfer h hasEdns z rest cs
     | some r =>
       let (rc, aa) : Option Nat × Bool := match r with
-        | .ok => (some RC_NOERROR, true)
+        | .ok | .referral => (some RC_NOERROR, true)
         | .err rc =>
           (if rc = RC_REFUSED ∨ rc = RC_NOTAUTH then some rc
            else if rc = RC_NXDOMAIN then some RC_NXDOMAIN else some RC_NOERROR, false)
@@ -454,19 +480,6 @@ def handleRequest (cfg : Config) (src : Ip) (buf : Bytes) (body : Body) : Gate :
 
 /-- the name bytes of the question are the uncompressed wire form of the decoded name -/
 def plainQuestion (q : Question) : Bool := q.raw.take (q.raw.length - 4) == Name.wire q.name
-
-/-- Class predicate of the finding `C11.CompressedQuestionEcho`: the server answers the request
-with the question echoed (known opcode, question decodes) and the question name contains a
-compression pointer (necessarily into the header), i.e. its bytes are not the plain wire form of
-the decoded name.  The harness computes the same predicate from the real decoder's output. -/
-def compressedQuestionEcho (buf : Bytes) : Bool :=
-  match readHeader buf with
-  | some h =>
-    !h.qr && knownOpcode h.opcode &&
-      (match readQueries buf h.qd with
-       | .ok q => !plainQuestion q
-       | _ => false)
-  | none => false
 
 end ServerGate
 end HickoryVerif
